@@ -1,24 +1,54 @@
 (* C14 — LQR returns the feasible global minimiser of the LQ problem; MPC agrees with it.
-   Statements only; proofs in Proofs/LQR.v; the model (Model/LQR.v) is the scalar instance
-   (state and input dimension 1, one batch item) of lqr.py / mpc.py / runsys AS CODED after the two
-   C14 `fix:` commits (system.reset() before the nominal roll-out and before the forward pass;
-   squeeze(-2) only for NLS Jacobians), with the system's time counter of Model/Dynamics.v.
+   Statements only; proofs in Proofs/LQR.v, LQR2.v, LQR3.v (tied scalar model) and Proofs/LQRMat1..6.v
+   (arbitrary dimensions).
 
-   Notation of the statements:
+   PART 1 - the tied model Model/LQR.v: the scalar instance (state and input dimension 1, one batch
+   item) of lqr.py / mpc.py / runsys AS CODED after the two C14 `fix:` commits (system.reset() before
+   the nominal roll-out and before the forward pass; squeeze(-2) only for NLS Jacobians), with the
+   system's time counter of Model/Dynamics.v.  Notation:
      lqr_solve s dt prob x0 un tm = Some (xs, us, c, tm')   one LQR.forward(x0, dt, un) on the system
          object s whose counter is tm: states, inputs, cost, counter afterwards (None: it raises);
      traj s t x us        states visited by calling the system from x at time t with inputs us;
      Jcost s t x prob us  sum_t 1/2 tau_t^T Q_t tau_t + p_t^T tau_t along that trajectory;
      sys_ok s             the object is an LTV object or has constant coefficients (LTI);
-     pd st                Q_t symmetric positive definite.
-   Partial (suffix _partial): state / input dimension 1 and dt = 1 only; arbitrary dimensions are
-   covered by the correspondence check against the property's own oracle, not by a theorem.
+     coherent s dt        (LTV object and dt = 1) or constant coefficients (any dt): the coefficients the
+                          backward pass reads after set_refpoint(t*dt) are those of the system's t-th call;
+     pd st                Q_t symmetric positive definite;   nominal_ok prob un   u_traj None or of length T.
+   For every horizon, history, nominal trajectory: the solve returns (C14_lqr_returns_pd), is feasible,
+   reports the sum of the stage costs, is THE minimiser (C14_lqr_optimal_unique_scalar: no sequence is
+   cheaper and every sequence that is as cheap equals it), has zero gradient (C14_lqr_gradient_zero_scalar),
+   is independent of nominal trajectory and counter as a whole (C14_lqr_nominal_independent_scalar);
+   MPC returns exactly it, its loop ending by the stepper after 1..max(1,max_steps) iterations
+   (C14_mpc_linear_is_lqr_full_scalar).  REFUTED: optimality for dt <> 1 on an LTV object
+   (C14_lqr_optimal_dt_refuted; confirmed on the implementation: LQR(x_init, dt=2) on the LTV object of
+   the witness returns cost 7/8, the optimum is 3/4).
+   The `_scalar_partial` theorems of the first build are kept; they are subsumed by the ones above.
+
+   PART 2 - arbitrary state / input dimensions ns, nc >= 1 (Proofs/LQRMat2.v): lqrN_solve is the same
+   recursion with the matrices of Base/Mat.v in place of scalars (block form Q_t = [[Nxx Nxu][Nux Nuu]],
+   p_t = (npx, npu); F^T V F, Cholesky solve, K, k, V, v, forward pass and cost as coded); the Cholesky
+   factorisation and the two cholesky_solve calls are parameters (chol, csm, csv) with the contract
+     chol_sound_c     when chol Quu succeeds, csm / csv return solutions of Quu X = M / Quu y = b;
+     chol_complete_c  chol succeeds on every symmetric positive-definite matrix.
+   pdN ns nc st : Q_t symmetric, positive SEMIdefinite and positive definite in the input block (weaker
+   than Q_t positive definite: C14_pd_implies_pdN); wfsys: shapes of A_t, B_t, c1_t; coherentN as above.
+   This transcription is NOT a Model file: it is tied to the code through its instance at ns = nc = 1,
+   which is proved to compute exactly what Model/LQR.v computes (C14_matrix_dim1_is_model) - for
+   dimensions > 1 the tie is the property oracle of the harness.  Its hypotheses are satisfiable in
+   dimension 1 (the model's own 1x1 routines) and in dimension 2 (C14_matrix_hypotheses_dim2,
+   C14_matrix_dim2_example).  Zero gradient in any dimension: C14_lqr_gradient_zero_matrix.
+   Not proved: batching inside one call, float rounding, MPC on NONLINEAR systems beyond the structure
+   of the forward pass (C14_forward_pass_any_dynamics_partial: feasibility and cost consistency hold for
+   any transition function and any gains; the linearisation itself is not modelled).
    The `_old_refuted` theorems are about the code BEFORE the fix commits (Model/LQR.v:
    lqr_solve_old, mpc_forward_old, lqr_shape_raises_old); their witnesses are regression cases of
    the check. *)
 From Coq Require Import ZArith QArith List Bool Reals.
 Import ListNotations.
-From PV Require Import Base.Num Model.Dynamics Model.Controller Model.LQR Proofs.LQR.
+From Coquelicot Require Import Coquelicot.
+From PV Require Import Base.Num Base.Mat Model.Dynamics Model.Controller Model.LQR.
+From PV Require Import Proofs.LQRMat1 Proofs.LQRMat2 Proofs.LQRMat3 Proofs.LQRMat4 Proofs.LQRMat5 Proofs.LQRMat6 Proofs.LQRMat7 Proofs.LQRMat8.
+From PV Require Import Proofs.LQR Proofs.LQR2 Proofs.LQR3.
 Close Scope Q_scope.
 
 (* feasibility, for every history (any number type, any dt, any nominal trajectory, any counter):
@@ -75,7 +105,9 @@ Theorem C14_mpc_linear_is_lqr_scalar_partial : forall (s : ssys (F:=R)) prob x0 
   (forall un tm0 xs0 us0 c0 tm0', lqr_solve s 1 prob x0 un tm0 = Some (xs0, us0, c0, tm0') -> c = c0).
 Proof. exact mpc_linear_is_lqr_scalar. Qed.
 
-(* no shape of the property's range makes LQR raise (model of the shape handling of A, B) *)
+(* no shape of the property's range makes LQR raise (model of the shape handling of A, B: the predicate
+   is constant after the fix commit - this is a statement about the shape grid of the tie, the
+   theorem that the solve returns is C14_lqr_returns_pd below) *)
 Theorem C14_lqr_returns : forall nb ns T, lqr_shape_raises nb ns T = false.
 Proof. exact shape_never_raises. Qed.
 
@@ -118,6 +150,217 @@ Theorem C14_hypotheses_satisfiable :
   sys_ok {| sk := KLTV; scoef := fun t => (IZR t, 1%R, None) |}.
 Proof. split; [exact pd_example|split; [exact sys_ok_example_lti|exact sys_ok_example_ltv]]. Qed.
 
+
+(* ================================================================ second round: the tied scalar model *)
+(* LQR.forward RETURNS (the Cholesky factorisation never fails) for every positive-definite cost, every
+   system object (LTI, LTV, even an LTI-class object with varying coefficients), every dt, counter and
+   nominal trajectory of length T; and it raises exactly when the nominal trajectory has another length *)
+Theorem C14_lqr_returns_pd : forall (s : ssys (F:=R)) dt prob x0 un tm,
+  Forall pd prob -> nominal_ok prob un ->
+  exists xs us c tm', lqr_solve s dt prob x0 un tm = Some (xs, us, c, tm').
+Proof. exact lqr_solve_returns. Qed.
+Theorem C14_lqr_raises_iff : forall (s : ssys (F:=R)) dt prob x0 un tm, Forall pd prob ->
+  (lqr_solve s dt prob x0 un tm = None <-> ~ nominal_ok prob un).
+Proof. exact lqr_solve_raises_iff. Qed.
+
+(* optimality WITH UNIQUENESS, any horizon, any coherent (system, dt) - dt is arbitrary on
+   constant-coefficient systems -: no input sequence is cheaper, and one that is as cheap is the returned one *)
+Theorem C14_lqr_optimal_unique_scalar : forall (s : ssys (F:=R)) dt prob x0 un tm xs us c tm',
+  Forall pd prob -> coherent s dt ->
+  lqr_solve s dt prob x0 un tm = Some (xs, us, c, tm') ->
+  length us = length prob /\ xs = x0 :: traj s 0 x0 us /\ c = Jcost s 0 x0 prob us /\
+  (forall us', length us' = length prob -> (c <= Jcost s 0 x0 prob us')%R) /\
+  (forall us', length us' = length prob -> (Jcost s 0 x0 prob us' <= c)%R -> us' = us).
+Proof. exact lqr_optimal_unique. Qed.
+
+(* independence of the nominal input trajectory and of the counter found, for the WHOLE result
+   (states, inputs, cost, time afterwards) *)
+Theorem C14_lqr_nominal_independent_scalar : forall (s : ssys (F:=R)) dt prob x0 un un' tm tm0,
+  Forall pd prob -> coherent s dt -> nominal_ok prob un -> nominal_ok prob un' ->
+  lqr_solve s dt prob x0 un tm = lqr_solve s dt prob x0 un' tm0.
+Proof. exact lqr_nominal_independent. Qed.
+
+(* zero gradient with respect to every input: along EVERY direction d of the input space the cost is
+   c + h e^2 with h >= 0 (no first-order term), so its derivative at the returned inputs is 0;
+   d = unit_dir T i is the partial derivative with respect to u_i.  line us d e = us + e d *)
+Theorem C14_lqr_no_first_order_scalar : forall (s : ssys (F:=R)) dt prob x0 un tm xs us c tm',
+  Forall pd prob -> coherent s dt ->
+  lqr_solve s dt prob x0 un tm = Some (xs, us, c, tm') ->
+  forall d, length d = length prob -> exists h, (0 <= h)%R /\
+    forall e, Jcost s 0 x0 prob (line us d e) = (c + h * (e * e))%R.
+Proof. exact lqr_no_first_order. Qed.
+Theorem C14_lqr_gradient_zero_scalar : forall (s : ssys (F:=R)) dt prob x0 un tm xs us c tm',
+  Forall pd prob -> coherent s dt ->
+  lqr_solve s dt prob x0 un tm = Some (xs, us, c, tm') ->
+  forall d, length d = length prob ->
+    is_derive (fun e => Jcost s 0 x0 prob (line us d e)) 0%R 0%R.
+Proof. exact lqr_gradient_zero. Qed.
+
+(* MPC.forward on a linear system: it returns; what it returns is exactly what LQR returns from any
+   nominal trajectory and counter; the loop ends because the stepper stops (the fuel of the model loop is
+   never exhausted) after between 1 and max(1, max_steps) iterations - whatever the stepper
+   configuration and state, i.e. for every iteration count *)
+Theorem C14_mpc_linear_returns_scalar : forall (s : ssys (F:=R)) dt prob x0 cfg st u0 tm,
+  Forall pd prob -> nominal_ok prob u0 ->
+  exists xs us c tm' st' n, mpc_forward s dt prob x0 cfg st u0 tm = Some (xs, us, c, tm', st', n).
+Proof. exact mpc_linear_returns. Qed.
+Theorem C14_mpc_linear_is_lqr_full_scalar : forall (s : ssys (F:=R)) dt prob x0 cfg st u0 tm xs us c tm' st' n,
+  Forall pd prob -> coherent s dt ->
+  mpc_forward s dt prob x0 cfg st u0 tm = Some (xs, us, c, tm', st', n) ->
+  (forall un tm0, nominal_ok prob un -> lqr_solve s dt prob x0 un tm0 = Some (xs, us, c, tm')) /\
+  (forall us', length us' = length prob -> (c <= Jcost s 0 x0 prob us')%R) /\
+  rtb_cont st' = false /\ (1 <= n)%nat /\ (Z.of_nat n <= Z.max 1 (rtb_max cfg))%Z.
+Proof. exact mpc_linear_is_lqr. Qed.
+Theorem C14_mpc_loop_ends : forall (F : Type) (NF : Num F) (s : ssys (F:=F)) dt prob x0 cfg st u0 tm xs us c tm' st' n,
+  mpc_forward s dt prob x0 cfg st u0 tm = Some (xs, us, c, tm', st', n) ->
+  rtb_cont st' = false /\ (1 <= n)%nat /\ (Z.of_nat n <= Z.max 1 (rtb_max cfg))%Z.
+Proof. intros F NF. exact mpc_forward_ends. Qed.
+
+(* REFUTED: optimality with dt <> 1 on an LTV object.  Witness (Proofs/LQR2.v): the LTV object
+   A_t = (1,0,2)[t mod 3], B = 1, Q_t = I, p = 0, x_init = 1, T = 3, dt = 2: returned inputs
+   (-1/4, 1/4, 0) of cost 7/8, while (-1/2, 0, 0) costs 3/4: lqr_backward reads A, B after
+   set_refpoint(t*dt), the system itself advances its counter by 1 per call *)
+Theorem C14_lqr_optimal_dt_refuted :
+  exists (s : ssys (F:=Q)) dt prob x0 xs us c tm' us',
+    sk s = KLTV /\ prob = w_prob3 /\
+    lqr_solve s dt prob x0 None 0%Z = Some (xs, us, c, tm') /\
+    length us' = length prob /\ (Jcost s 0%Z x0 prob us' < c)%Q.
+Proof. exact lqr_optimal_dt_refuted. Qed.
+
+(* the forward pass for ANY transition function f (what MPC runs on a nonlinear system) and ANY gains
+   and nominal trajectory: the returned states follow f from x, one call per step at times tm, tm+1, ...,
+   and the returned cost is the accumulated sum of the stage costs along them; on a linear system it is
+   the model's forward pass.  Partial: the NLS linearisation that produces the gains is not modelled *)
+Theorem C14_forward_pass_any_dynamics_partial : forall (F : Type) (NF : Num F) (f : Z -> F -> F -> F) l tm x c xs us cf tmf,
+  fwdG f tm x l c = (xs, us, cf, tmf) ->
+  xs = trajG f tm x us /\ length us = length l /\ tmf = (tm + Z.of_nat (length l))%Z /\
+  cf = JaccG f tm x (map (fun it => fst (fst (fst it))) l) us c.
+Proof. intros F NF. exact fwdG_spec. Qed.
+Theorem C14_forward_pass_linear_is_model : forall (F : Type) (NF : Num F) (s : ssys (F:=F)) l tm x c,
+  fwd s tm x l c = fwdG (s_next s) tm x l c.
+Proof. intros F NF. exact fwd_is_fwdG. Qed.
+
+(* ================================================================ arbitrary dimensions ns, nc >= 1 *)
+(* optimality with uniqueness, feasibility, cost, time: every horizon, every time-varying A_t, B_t,
+   c1_t of the right shapes, every nominal trajectory and counter, every Cholesky routine that solves
+   when it succeeds (the contract is spelled out here; it is chol_sound_c) *)
+Theorem C14_lqr_optimal_matrix :
+  forall (ns nc : nat) (Lt : Type) (chol : matR -> option Lt) (csm : Lt -> matR -> matR) (csv : Lt -> list R -> list R),
+  (forall Quu L, wf nc nc Quu -> chol Quu = Some L ->
+     (forall m M, wf nc m M -> wf nc m (csm L M) /\ mmul Quu (csm L M) = M) /\
+     (forall b, length b = nc -> length (csv L b) = nc /\ mapply Quu (csv L b) = b)) ->
+  forall s dt prob x0 un tm xs us c tm',
+  wfsys ns nc s -> coherentN s dt -> Forall (pdN ns nc) prob -> length x0 = ns -> nominalN_ok nc prob un ->
+  lqrN_solve nc Lt chol csm csv s dt prob x0 un tm = Some (xs, us, c, tm') ->
+  length us = length prob /\ Forall (lenc nc) us /\ xs = x0 :: trajN s 0 x0 us /\ tm' = Z.of_nat (length prob) /\
+  c = JcostN s 0 x0 prob us /\
+  (forall us', length us' = length prob -> Forall (lenc nc) us' -> (c <= JcostN s 0 x0 prob us')%R) /\
+  (forall us', length us' = length prob -> Forall (lenc nc) us' -> (JcostN s 0 x0 prob us' <= c)%R -> us' = us).
+Proof. exact lqrN_optimal. Qed.
+(* zero gradient in any dimension: along every line us + e ds through the returned inputs the cost is
+   c + h e^2, h >= 0, so every directional derivative (ds = a unit vector at one component of one input:
+   that partial derivative) is 0.  lineN us ds e = the sequence u_t + e d_t *)
+Theorem C14_lqr_no_first_order_matrix : forall ns nc Lt chol csm csv,
+  chol_sound_c nc Lt chol csm csv ->
+  forall s dt prob x0 un tm xs us c tm',
+  wfsys ns nc s -> coherentN s dt -> Forall (pdN ns nc) prob -> length x0 = ns -> nominalN_ok nc prob un ->
+  lqrN_solve nc Lt chol csm csv s dt prob x0 un tm = Some (xs, us, c, tm') ->
+  forall ds, length ds = length prob -> Forall (lenc nc) ds -> exists h, (0 <= h)%R /\
+    forall e, JcostN s 0 x0 prob (lineN us ds e) = (c + h * (e * e))%R.
+Proof. exact lqrN_no_first_order. Qed.
+Theorem C14_lqr_gradient_zero_matrix : forall ns nc Lt chol csm csv,
+  chol_sound_c nc Lt chol csm csv ->
+  forall s dt prob x0 un tm xs us c tm',
+  wfsys ns nc s -> coherentN s dt -> Forall (pdN ns nc) prob -> length x0 = ns -> nominalN_ok nc prob un ->
+  lqrN_solve nc Lt chol csm csv s dt prob x0 un tm = Some (xs, us, c, tm') ->
+  forall ds, length ds = length prob -> Forall (lenc nc) ds ->
+    is_derive (fun e => JcostN s 0 x0 prob (lineN us ds e)) 0%R 0%R.
+Proof. exact lqrN_gradient_zero. Qed.
+(* the solve returns: every system of the right shapes (no coherence needed), every dt *)
+Theorem C14_lqr_returns_matrix : forall ns nc Lt chol csm csv,
+  chol_sound_c nc Lt chol csm csv -> chol_complete_c nc Lt chol ->
+  forall s dt prob x0 un tm,
+  wfsys ns nc s -> Forall (pdN ns nc) prob -> length x0 = ns -> nominalN_ok nc prob un ->
+  exists xs us c tm', lqrN_solve nc Lt chol csm csv s dt prob x0 un tm = Some (xs, us, c, tm').
+Proof. exact lqrN_returns. Qed.
+(* independent of the nominal trajectory (whole result) and - unconditionally - of the counter found *)
+Theorem C14_lqr_nominal_independent_matrix : forall ns nc Lt chol csm csv,
+  chol_sound_c nc Lt chol csm csv -> chol_complete_c nc Lt chol ->
+  forall s dt prob x0 un un' tm tm0,
+  wfsys ns nc s -> coherentN s dt -> Forall (pdN ns nc) prob -> length x0 = ns ->
+  nominalN_ok nc prob un -> nominalN_ok nc prob un' ->
+  lqrN_solve nc Lt chol csm csv s dt prob x0 un tm = lqrN_solve nc Lt chol csm csv s dt prob x0 un' tm0.
+Proof. exact lqrN_nominal_independent. Qed.
+Theorem C14_lqr_history_independent_matrix : forall nc Lt chol csm csv s dt prob x0 un tm tm',
+  lqrN_solve nc Lt chol csm csv s dt prob x0 un tm = lqrN_solve nc Lt chol csm csv s dt prob x0 un tm'.
+Proof. exact lqrN_history_independent. Qed.
+(* MPC.forward (the loop of the model, C14_mpc_model_loop_is_generic_loop, over the matrix LQR) on a
+   linear system of any dimension: returns, and returns exactly the LQR result - feasible, optimal -
+   after 1..max(1,max_steps) iterations, whatever the stepper configuration and state *)
+Theorem C14_mpc_linear_is_lqr_matrix : forall ns nc Lt chol csm csv,
+  chol_sound_c nc Lt chol csm csv -> chol_complete_c nc Lt chol ->
+  forall s dt prob x0 cfg st u0 tm,
+  wfsys ns nc s -> coherentN s dt -> Forall (pdN ns nc) prob -> length x0 = ns -> nominalN_ok nc prob u0 ->
+  exists xs us c tm' st' n,
+    mpcN_forward nc Lt chol csm csv s dt prob x0 cfg st u0 tm = Some (xs, us, c, tm', st', n) /\
+    (forall un tm0, nominalN_ok nc prob un ->
+       lqrN_solve nc Lt chol csm csv s dt prob x0 un tm0 = Some (xs, us, c, tm')) /\
+    xs = x0 :: trajN s 0 x0 us /\ c = JcostN s 0 x0 prob us /\
+    (forall us', length us' = length prob -> Forall (lenc nc) us' -> (c <= JcostN s 0 x0 prob us')%R) /\
+    rtb_cont st' = false /\ (1 <= n)%nat /\ (Z.of_nat n <= Z.max 1 (rtb_max cfg))%Z.
+Proof. exact mpcN_linear_is_lqr. Qed.
+Theorem C14_mpc_model_loop_is_generic_loop : forall (F : Type) (NF : Num F) (solve : solver (F:=F)) s dt prob x0 cfg st u0 tm,
+  mpc_forward_gen solve s dt prob x0 cfg st u0 tm =
+  gforward (list F) (list F) (fun u tm => solve s dt prob x0 u tm) cfg st u0 tm.
+Proof. intros F NF. exact mpc_forward_is_gforward. Qed.
+
+(* the forward pass for vector states and ANY transition function f, any gains, any nominal trajectory
+   (MPC on a nonlinear system of any dimension): states follow f, cost = accumulated stage costs; on a
+   linear system it is the forward pass of lqrN_solve.  Partial: the NLS linearisation is not modelled *)
+Theorem C14_forward_pass_any_dynamics_matrix_partial : forall (f : Z -> list R -> list R -> list R) l tm x c xs us cf tmf,
+  fwdNG f tm x l c = (xs, us, cf, tmf) ->
+  xs = trajNG f tm x us /\ length us = length l /\ tmf = (tm + Z.of_nat (length l))%Z /\
+  cf = JaccNG f tm x (map stage_ofN l) us c.
+Proof. exact fwdNG_spec. Qed.
+Theorem C14_forward_pass_linear_is_matrix_model : forall s l tm x c, fwdN s tm x l c = fwdNG (sN_next s) tm x l c.
+Proof. exact fwdN_is_fwdNG. Qed.
+
+(* a positive-definite Q_t (jointly in state and input) satisfies pdN *)
+Theorem C14_pd_implies_pdN : forall ns nc st, pdQ ns nc st -> pdN ns nc st.
+Proof. exact pdQ_pdN. Qed.
+
+(* the anchor: at ns = nc = 1, with the 1x1 Cholesky routines of Model/LQR.v (raise unless Quu > 0, else
+   divide), the matrix transcription computes exactly what the tied model computes - result or raise.
+   e1 x = [x], embst / embsys / embo / embf: the 1x1 embeddings of stages, system, nominal inputs, result *)
+Theorem C14_matrix_dim1_is_model : forall (s : ssys (F:=R)) dt prob x0 un tm,
+  lqrN_solve 1 R chol1 csm1 csv1 (embsys s) dt (map embst prob) (e1 x0) (embo un) tm =
+  option_map embf (lqr_solve s dt prob x0 un tm).
+Proof. exact lqrN_dim1_is_model. Qed.
+Theorem C14_matrix_hypotheses_dim1 :
+  chol_sound_c 1 R chol1 csm1 csv1 /\ chol_complete_c 1 R chol1 /\
+  (forall s : ssys (F:=R), wfsys 1 1 (embsys s)) /\ (forall st, pd st -> pdN 1 1 (embst st)).
+Proof. exact (conj chol1_sound (conj chol1_complete (conj wfsys_1 pdN_1))). Qed.
+(* non-vacuity in a dimension > 1: a 2x2 routine (leading-minor test + Cramer's rule) satisfying both
+   halves of the contract, a 2-state 2-input time-varying system with affine term, a PD cost; the
+   theorems applied to it for every horizon, initial state, nominal trajectory and counter *)
+Theorem C14_matrix_hypotheses_dim2 :
+  chol_sound_c 2 matR chol2 csm2 csv2 /\ chol_complete_c 2 matR chol2 /\
+  wfsys 2 2 ex_sys /\ pdN 2 2 ex_stage /\ coherentN ex_sys 1.
+Proof. exact (conj chol2_sound (conj chol2_complete (conj ex_wfsys (conj ex_pd ex_coherent)))). Qed.
+Theorem C14_matrix_dim2_example : forall T x0 un tm, length x0 = 2%nat -> nominalN_ok 2 (repeat ex_stage T) un ->
+  exists xs us c tm',
+    lqrN_solve 2 matR chol2 csm2 csv2 ex_sys 1 (repeat ex_stage T) x0 un tm = Some (xs, us, c, tm') /\
+    xs = x0 :: trajN ex_sys 0 x0 us /\ c = JcostN ex_sys 0 x0 (repeat ex_stage T) us /\
+    (forall us', length us' = T -> Forall (lenc 2) us' -> (c <= JcostN ex_sys 0 x0 (repeat ex_stage T) us')%R).
+Proof. exact ex_dim2_solved. Qed.
+
+(* hypotheses of the second-round scalar theorems are satisfiable *)
+Theorem C14_hypotheses_satisfiable_2 :
+  coherent {| sk := KLTI; scoef := fun _ => ((3 / 2)%R, 1%R, Some (1 / 4)%R) |} 2 /\
+  coherent {| sk := KLTV; scoef := fun t => (IZR t, 1%R, None) |} 1 /\
+  (forall s : ssys (F:=R), sys_ok s <-> coherent s 1).
+Proof. exact (conj coherent_example_lti (conj coherent_example_ltv sys_ok_coherent)). Qed.
+
 Print Assumptions C14_lqr_feasible. Print Assumptions C14_lqr_time_bookkeeping.
 Print Assumptions C14_lqr_cost_is_sum. Print Assumptions C14_lqr_optimal_scalar_partial.
 Print Assumptions C14_lqr_nominal_independent_partial. Print Assumptions C14_lqr_history_independent.
@@ -126,3 +369,17 @@ Print Assumptions C14_lqr_returns. Print Assumptions C14_lqr_history_independent
 Print Assumptions C14_lqr_second_solve_suboptimal_old_refuted. Print Assumptions C14_lqr_stale_final_state_old_refuted.
 Print Assumptions C14_mpc_linear_is_lqr_ltv_old_refuted. Print Assumptions C14_lqr_returns_old_refuted.
 Print Assumptions C14_hypotheses_satisfiable.
+Print Assumptions C14_lqr_returns_pd. Print Assumptions C14_lqr_raises_iff.
+Print Assumptions C14_lqr_optimal_unique_scalar. Print Assumptions C14_lqr_nominal_independent_scalar.
+Print Assumptions C14_lqr_no_first_order_scalar. Print Assumptions C14_lqr_gradient_zero_scalar.
+Print Assumptions C14_mpc_linear_returns_scalar. Print Assumptions C14_mpc_linear_is_lqr_full_scalar.
+Print Assumptions C14_mpc_loop_ends. Print Assumptions C14_lqr_optimal_dt_refuted.
+Print Assumptions C14_forward_pass_any_dynamics_partial. Print Assumptions C14_forward_pass_linear_is_model.
+Print Assumptions C14_lqr_optimal_matrix. Print Assumptions C14_lqr_returns_matrix.
+Print Assumptions C14_lqr_nominal_independent_matrix. Print Assumptions C14_lqr_history_independent_matrix.
+Print Assumptions C14_mpc_linear_is_lqr_matrix. Print Assumptions C14_mpc_model_loop_is_generic_loop.
+Print Assumptions C14_pd_implies_pdN. Print Assumptions C14_matrix_dim1_is_model.
+Print Assumptions C14_matrix_hypotheses_dim1. Print Assumptions C14_matrix_hypotheses_dim2.
+Print Assumptions C14_matrix_dim2_example. Print Assumptions C14_hypotheses_satisfiable_2.
+Print Assumptions C14_forward_pass_any_dynamics_matrix_partial. Print Assumptions C14_forward_pass_linear_is_matrix_model.
+Print Assumptions C14_lqr_no_first_order_matrix. Print Assumptions C14_lqr_gradient_zero_matrix.
